@@ -10,15 +10,18 @@
    on the argument locations.  Covered: flood, union_no_overlap, filter_period_intersect,
    period_union (which overwrites `.data` of the caller's own events that end up in its result),
    merge_events_by_keys, chunk_events_by_key, sort_by_timestamp, sort_by_duration,
-   limit_events, filter_keyvals, exclude_keyvals, concat, sum_durations, nop, categorize,
-   tag, split_url_events, simplify_window_titles; wrong arity / wrong type raise before
-   anything is touched.  The bucket readers (query_bucket, query_bucket_eventcount,
+   limit_events, filter_keyvals, exclude_keyvals, filter_keyvals_regex, concat, sum_durations,
+   nop, categorize, tag, split_url_events, simplify_window_titles; wrong arity / wrong type
+   raise before anything is touched.  The bucket readers (query_bucket, query_bucket_eventcount,
    find_bucket / buckets / metadata) are the steps QQueryBucket, QEventcount, QBuckets,
    QMetadata of [run_query]; their confinement is the memory-store model's read lemmas
    (Proofs/Ownership.v), already part of C12_store_unchanged.
 
-   NOT covered: filter_keyvals_regex (no heap program; it builds a new list of the same
-   objects like filter_keyvals). *)
+   filter_keyvals_regex (Model/FilterRegexHeap.v; not part of C16's statement, stated here
+   where C12 needs it): its frame, sharing and refinement theorems are at the end of this
+   file.  With it EVERY function registered in aw_query/functions.py is covered: the
+   transform-backed ones by [transform_builtin], the bucket readers by [run_query]'s own
+   steps (notes/agents/THEAP3.md has the list). *)
 From AwVerif Require Import Base.Prelude Model.MemHeap Model.MemHeapQuery Model.TransformBuiltins
   Proofs.MemHeapBase Proofs.MemHeapCopy Proofs.MemHeapFrame Proofs.Ownership Proofs.MemHeapQueryProofs
   Proofs.TransformBuiltinsProofs.
@@ -75,3 +78,60 @@ Proof.
   split; [apply ordered_wf; vm_compute; reflexivity|].
   split; [vm_compute; reflexivity|]. split; [eexists; vm_compute; reflexivity|reflexivity].
 Qed.
+
+(* ---- filter_keyvals_regex (aw_transform/filter_keyvals.py; built-in q2_filter_keyvals_regex) ----
+   Model/FilterRegexHeap.v, Proofs/FilterRegexHeapProofs.v.  The regex engine is a pair of
+   parameters: [c] = re.compile(regex) returned, [fa q] = bool(r.findall(v)) for a value with
+   label q (Err TypeError when v is not a str); every theorem holds for every engine. *)
+From AwVerif Require Import Model.Group Model.GroupHeap Model.FilterRegexHeap
+  Proofs.DictHeapBase Proofs.GroupHeapFrame Proofs.FilterRegexHeapProofs.
+
+(* FRAME + SHARING: whenever the call returns, the pattern compiled, h' = h ++ [returned list]
+   (one new cell; nothing that existed is written) and the elements of the returned list are
+   a sub-sequence, in order, of the argument's own elements - for every heap, any aliasing *)
+Theorem C12_filter_regex_shares : forall c fa h L key h' L',
+  filter_keyvals_regex_h c fa h L key = Ok (h', L') ->
+  c = true /\
+  exists p ks out, MemHeap.lookup h L = Some (Cell (TNode p) ks) /\ one_new_list h h' L' out /\ subseq out ks.
+Proof. exact fregex_h_shape. Qed.
+Print Assumptions C12_filter_regex_shares.
+
+Theorem C12_subseq_incl : forall (a b : list loc), subseq a b -> incl a b.
+Proof. exact (@subseq_incl loc). Qed.
+Print Assumptions C12_subseq_incl.
+
+Theorem C12_filter_regex_frame : forall h h' L' out, one_new_list h h' L' out -> kept h h'.
+Proof. exact one_new_list_kept. Qed.
+Print Assumptions C12_filter_regex_frame.
+
+(* REFINEMENT to the functional model: same outcome (returns / exception class: re.error for a
+   pattern that does not compile, TypeError at the first listed event whose value under the
+   key is not a str, AttributeError for a non-Event), the result reads back as the model's,
+   the argument reads back unchanged - every heap on which the argument reads back at all
+   (the same Event several times, shared data dicts, shared list values) *)
+Theorem C12_filter_regex_refines : forall c fa h L key vs, glist_at h L = Some vs ->
+  match filter_keyvals_regex c fa vs key with
+  | Ok out => exists h' L', filter_keyvals_regex_h c fa h L key = Ok (h', L') /\
+                            glist_at h' L' = Some out /\ glist_at h' L = Some vs
+  | Err e => filter_keyvals_regex_h c fa h L key = Err e
+  | OutOfFuel => filter_keyvals_regex_h c fa h L key = OutOfFuel
+  end.
+Proof. exact fregex_h_refines. Qed.
+Print Assumptions C12_filter_regex_refines.
+
+(* Non-vacuity on ex12 ([a; b; a], a and b carry the value label 1 under key 100; a also a
+   list object under 101): an engine that finds the pattern in label 1 returns the new list
+   [a; b; a] of the SAME objects at 6; filtering on key 101 meets a list value: TypeError,
+   nothing allocated; a pattern that does not compile raises before anything is read; as a
+   built-in the call returns the new root 6. *)
+Definition fa12 (q : Z) : res bool := if q =? 1 then Ok true else if q =? 2 then Ok false else Err TypeError.
+Definition dc12r (f : Z) : call := CFilterKeyvalsRegex 100 true fa12.
+
+Example C12transforms_filter_regex_nonvacuous :
+  glist_at ex12 5%nat = Some [mkG (Some 1) 1000 2000 [(100, 1); (101, 7)]; mkG None 5000 1000 [(100, 1)];
+                              mkG (Some 1) 1000 2000 [(100, 1); (101, 7)]] /\
+  filter_keyvals_regex_h true fa12 ex12 5%nat 100 = Ok (ex12 ++ [Cell (TNode EVENT_LIST) [2%nat; 4%nat; 2%nat]], 6%nat) /\
+  filter_keyvals_regex_h true fa12 ex12 5%nat 101 = Err TypeError /\
+  filter_keyvals_regex_h false fa12 ex12 5%nat 100 = Err OtherError /\
+  transform_builtin dc12r 0 [5%nat] ex12 = (ex12 ++ [Cell (TNode EVENT_LIST) [2%nat; 4%nat; 2%nat]], Some [6%nat]).
+Proof. repeat split; vm_compute; reflexivity. Qed.
